@@ -227,7 +227,7 @@ def r9_repeat_none(prog):
     return r
 
 
-@rule('T2', props=['C08', 'C07'], floor=2, configs=('all',))
+@rule('T2', props=['C08', 'C07', 'C15'], floor=2, configs=('all',))
 def t2_claim_merge(prog):
     """Claim::try_merge as a 3x3 table (constant propagation over the two discriminants): the merge is
     refused exactly when one side is Mutable and the other is not None; otherwise the stronger claim
